@@ -173,6 +173,17 @@ impl SockWorker {
         let bytes = rendered.with_nonce(&nonce);
         let server = self.server_for(case.transport);
         let mut obs = Observation::default();
+        // now and then the server has just seen clients that went away in the middle of a head line
+        // (its pool workers are reused: nothing of those lines may show in this connection)
+        if bytes.len() % 7 == 0 {
+            for k in 0..6 {
+                if let Ok(mut s) = self.connect(case.transport) {
+                    let _ = s.write_all(&[&b"GE"[..], &b"GET /litter HTTP/1.1\r\nHos"[..], &b"POST"[..]][k % 3]);
+                    drop(s);
+                }
+            }
+            std::thread::sleep(Duration::from_millis(3));
+        }
         let sock = match self.connect(case.transport) {
             Ok(s) => s,
             Err(e) => {
